@@ -463,3 +463,231 @@ Proof.
   rewrite (read_intro_timeout [82] body); [reflexivity|].
   intros pre post E. apply Hb. rewrite E. apply in_or_app. right. left. reflexivity.
 Qed.
+
+(* ------------------------------------------------------------------ OK flag *)
+Lemma expected_ok_iff noise items msg : p_ok (expected noise items msg) = true <-> msg = Some OK.
+Proof.
+  unfold expected. cbn [p_ok]. destruct msg as [m|]; split; intros H; try discriminate.
+  - apply beq_bytes_eq in H. subst. reflexivity.
+  - injection H as ->. apply beq_bytes_eq. reflexivity.
+Qed.
+
+(* ------------------------------------------------------------------ truncation *)
+(* every proper prefix of (noise ++ one well-formed response) contains no complete response *)
+Lemma truncated_incomplete noise items msg p q :
+  first_at_end APC_G noise -> wf_items items -> wf_msg msg ->
+  q <> [] -> p ++ q = noise ++ enc_response items msg -> incomplete p.
+Proof.
+  intros Hn Hi Hm Hq E. rewrite enc_response_body in E.
+  pose proof (body_first_at_end items msg ltac:(apply Hi) Hm) as Hb.
+  set (body := body_of items msg) in *.
+  replace (noise ++ APC_G ++ body ++ ST) with ((noise ++ APC_G) ++ (body ++ ST)) in E
+    by (rewrite <- !app_assoc; reflexivity).
+  destruct (Nat.le_gt_cases (length (noise ++ APC_G)) (length p)) as [L|L].
+  - right. destruct (app_prefix p q (noise ++ APC_G) (body ++ ST) E L) as (e & Hp & Hbody).
+    exists noise, e. split; [rewrite Hp, <- app_assoc; reflexivity|]. split; [exact Hn|].
+    intros pre post He. subst e. rewrite <- !app_assoc in Hbody.
+    apply Hb in Hbody. apply app_eq_nil in Hbody. destruct Hbody. congruence.
+  - left. symmetry in E.
+    destruct (app_prefix (noise ++ APC_G) (body ++ ST) p q E ltac:(lia)) as (e & Hp & _).
+    assert (Len : length (noise ++ APC_G) = (length p + length e)%nat) by (rewrite Hp, app_length; reflexivity).
+    intros pre post He. subst p. rewrite <- !app_assoc in Hp.
+    apply Hn in Hp. apply app_eq_nil in Hp. destruct Hp as (_ & ->).
+    cbn [length] in Len. lia.
+Qed.
+
+Lemma receive_truncated noise items msg p q :
+  first_at_end APC_G noise -> wf_items items -> wf_msg msg ->
+  q <> [] -> p ++ q = noise ++ enc_response items msg ->
+  exists r, receive p = (Got r, []) /\ invalid_with r p.
+Proof. intros. apply receive_incomplete. eapply truncated_incomplete; eauto. Qed.
+
+(* ------------------------------------------------------------------ conservation, all inputs *)
+Lemma read_until_sound pat_rev l : forall buf,
+  match read_until pat_rev buf l with
+  | Found b r => rev b ++ r = rev buf ++ l /\ starts_with pat_rev b = true
+  | TimedOut b => b = rev l ++ buf
+  end.
+Proof.
+  induction l as [|x l IH]; intros buf; cbn [read_until]; [reflexivity|].
+  destruct (starts_with pat_rev (x :: buf)) eqn:E.
+  - split; [|exact E]. cbn [rev]. rewrite <- app_assoc. reflexivity.
+  - specialize (IH (x :: buf)). destruct (read_until pat_rev (x :: buf) l) as [b r|b].
+    + destruct IH as (IH & S). split; [|exact S]. rewrite IH. cbn [rev]. rewrite <- app_assoc. reflexivity.
+    + rewrite IH. cbn [rev]. rewrite <- app_assoc. reflexivity.
+Qed.
+
+Lemma split_sub1_sound sep l : forall cur a b,
+  split_sub1 sep l cur = Some (a, b) -> rev cur ++ l = a ++ sep ++ b.
+Proof.
+  induction l as [|x l IH]; intros cur a b H; cbn [split_sub1] in H.
+  - destruct (strip_prefix sep []) as [r|] eqn:E; [|discriminate].
+    injection H as <- <-. apply strip_prefix_some in E. rewrite E. reflexivity.
+  - destruct (strip_prefix sep (x :: l)) as [r|] eqn:E.
+    + injection H as <- <-. apply strip_prefix_some in E. rewrite E. reflexivity.
+    + apply IH in H. cbn [rev] in H. rewrite <- app_assoc in H. exact H.
+Qed.
+
+Lemma do_part_keeps r part :
+  is_valid (do_part r part) = is_valid r /\ non_response (do_part r part) = non_response r.
+Proof.
+  unfold do_part.
+  repeat match goal with
+         | |- context [match ?x with _ => _ end] => destruct x
+         end; cbn; auto.
+Qed.
+
+Lemma fold_do_part_keeps parts : forall r,
+  is_valid (fold_left do_part parts r) = is_valid r /\
+  non_response (fold_left do_part parts r) = non_response r.
+Proof.
+  induction parts as [|p parts IH]; intros r; [auto|].
+  cbn [fold_left]. destruct (IH (do_part r p)) as (-> & ->). apply do_part_keeps.
+Qed.
+
+Lemma parse_buffer_sound buffer :
+  match parse_buffer buffer with
+  | Got r => is_valid r = true /\ exists b, buffer = non_response r ++ APC_G ++ b
+  | Raised _ => True
+  end.
+Proof.
+  unfold parse_buffer. rewrite src_resp_intro.
+  destruct (split_sub1 APC_G buffer []) as [[a b]|] eqn:E; [|exact I].
+  apply split_sub1_sound in E. cbn [rev app] in E.
+  destruct (split_first resp_msg_sep (drop_last 2 b) []) as [keys omsg].
+  destruct omsg as [m|].
+  - destruct (utf8_ok m); [|exact I].
+    destruct (fold_do_part_keeps (split_on resp_key_sep keys [])
+                (set_message (response_default true a) m (beq_bytes m resp_ok))) as (-> & ->).
+    cbn. split; [reflexivity|]. exists b. exact E.
+  - destruct (fold_do_part_keeps (split_on resp_key_sep keys []) (response_default true a)) as (-> & ->).
+    cbn. split; [reflexivity|]. exists b. exact E.
+Qed.
+
+(* For EVERY byte stream: an invalid result returns everything that was pending as
+   non_response; a valid result accounts for every consumed byte (the bytes before the
+   introducer are returned as non_response) and leaves the rest unread: nothing is lost and a
+   response is reported only if an introducer actually arrived. *)
+Lemma receive_conserves s :
+  match receive s with
+  | (Got r, rest) =>
+      if is_valid r then exists b, s = non_response r ++ APC_G ++ b ++ rest
+      else s = non_response r /\ rest = []
+  | (Raised _, rest) => exists consumed, s = consumed ++ rest
+  end.
+Proof.
+  unfold receive.
+  pose proof (read_until_sound (rev resp_intro) s []) as H1.
+  destruct (read_until (rev resp_intro) [] s) as [b1 r1|b1].
+  - destruct H1 as (H1 & _). cbn [rev app] in H1.
+    pose proof (read_until_sound (rev resp_term) r1 b1) as H2.
+    destruct (read_until (rev resp_term) b1 r1) as [b2 r2|b2].
+    + destruct H2 as (H2 & _).
+      assert (Hs : s = rev b2 ++ r2) by (rewrite H2, H1; reflexivity).
+      pose proof (parse_buffer_sound (rev b2)) as P.
+      destruct (parse_buffer (rev b2)) as [r|e].
+      * destruct P as (-> & bb & P). exists bb. rewrite Hs, P, <- !app_assoc. reflexivity.
+      * exists (rev b2). exact Hs.
+    + cbn [response_default is_valid non_response]. split; [|reflexivity].
+      rewrite H2, rev_app_distr, rev_involutive, <- H1. reflexivity.
+  - cbn [response_default is_valid non_response]. split; [|reflexivity].
+    rewrite H1, app_nil_r, rev_involutive. reflexivity.
+Qed.
+
+(* ------------------------------------------------------------------ cursor report, all inputs *)
+Lemma split_on_nonempty sep l : forall cur, split_on sep l cur <> [].
+Proof. induction l as [|b r IH]; intros cur; cbn [split_on]; [discriminate|]. destruct (b =? sep); [discriminate|apply IH]. Qed.
+
+Lemma split_on_join sep l : forall cur, join sep (split_on sep l cur) = rev cur ++ l.
+Proof.
+  induction l as [|b r IH]; intros cur; cbn [split_on].
+  - cbn [join]. rewrite app_nil_r. reflexivity.
+  - destruct (b =? sep) eqn:E.
+    + assert (b = sep) as -> by lia.
+      pose proof (split_on_nonempty sep r []) as Hne. specialize (IH []).
+      destruct (split_on sep r []) as [|q qs]; [congruence|].
+      change (join sep (rev cur :: q :: qs)) with (rev cur ++ sep :: join sep (q :: qs)).
+      rewrite IH. reflexivity.
+    + rewrite IH. cbn [rev]. rewrite <- app_assoc. reflexivity.
+Qed.
+
+(* A position is returned only if a report ESC [ ys ; xs R actually arrived, and it is exactly
+   (int(xs) - 1, int(ys) - 1); the bytes after the report are left unread. *)
+Lemma cursor_report_sound s :
+  match cursor_report s with
+  | (CursorAt x y, rest) =>
+      exists junk ys xs, s = junk ++ CSI ++ ys ++ [59] ++ xs ++ [82] ++ rest /\
+                         py_int xs = Some (x + 1)%Z /\ py_int ys = Some (y + 1)%Z
+  | (CursorRaised _, rest) => exists consumed, s = consumed ++ rest
+  end.
+Proof.
+  unfold cursor_report. rewrite src_cur_intro, src_cur_final, src_cur_sep.
+  pose proof (read_until_sound (rev CSI) s []) as H1.
+  destruct (read_until (rev CSI) [] s) as [b1 r1|b1]; [|exists s; rewrite app_nil_r; reflexivity].
+  destruct H1 as (H1 & S1). cbn [rev app] in H1.
+  apply starts_with_true in S1 as (t1 & S1). change (rev CSI) with [91; 27] in S1.
+  pose proof (read_until_sound (rev [82]) r1 []) as H2.
+  destruct (read_until (rev [82]) [] r1) as [b2 r2|b2]; [|exists s; rewrite app_nil_r; reflexivity].
+  destruct H2 as (H2 & S2). cbn [rev app] in H2.
+  apply starts_with_true in S2 as (t2 & S2). cbn [rev app] in S2.
+  assert (Hs : s = (rev b1 ++ rev b2) ++ r2) by (rewrite <- app_assoc, H2, H1; reflexivity).
+  assert (Hd : drop_last 1 (rev b2) = rev t2).
+  { rewrite S2. cbn [rev]. change 1%nat with (length [82]). apply drop_last_app. }
+  rewrite Hd.
+  pose proof (split_on_join 59 (rev t2) []) as J. cbn [rev app] in J.
+  destruct (split_on 59 (rev t2) []) as [|y [|x [|z zs]]]; try (eexists; exact Hs).
+  destruct (py_int x) as [xv|] eqn:Ex; [|eexists; exact Hs].
+  destruct (py_int y) as [yv|] eqn:Ey; [|eexists; exact Hs].
+  exists (rev t1), y, x. split; [|rewrite Ex, Ey; split; f_equal; lia].
+  rewrite Hs, S1, S2. rewrite rev_app_distr. change (rev [91; 27]) with CSI.
+  cbn [rev]. rewrite <- J. cbn [join]. rewrite <- !app_assoc. reflexivity.
+Qed.
+
+(* ------------------------------------------------------------------ checking hypotheses by computation *)
+Lemma contains_sub_mid pat pre r : contains_sub pat (pre ++ pat ++ r) = true.
+Proof.
+  induction pre as [|x pre IH]; cbn [app].
+  - destruct (pat ++ r) eqn:E; cbn [contains_sub]; rewrite <- E, starts_with_app; reflexivity.
+  - cbn [contains_sub]. rewrite IH. apply orb_true_r.
+Qed.
+
+Definition first_at_end_b (pat noise : list N) : bool := negb (contains_sub pat (removelast (noise ++ pat))).
+Definition absent_b (pat l : list N) : bool := negb (contains_sub pat l).
+
+Lemma first_at_end_b_sound pat noise : first_at_end_b pat noise = true -> first_at_end pat noise.
+Proof.
+  unfold first_at_end_b. intros H pre post E. destruct post as [|x post]; [reflexivity|]. exfalso.
+  rewrite E in H. rewrite !app_assoc in H. rewrite removelast_app in H by discriminate.
+  rewrite <- !app_assoc in H. rewrite contains_sub_mid in H. discriminate.
+Qed.
+
+Lemma absent_b_sound pat l : absent_b pat l = true -> absent pat l.
+Proof.
+  unfold absent_b. intros H pre post E. rewrite E, contains_sub_mid in H. discriminate.
+Qed.
+
+Lemma nonvacuous_hyps :
+  first_at_end APC_G [120; 27; 95] /\
+  wf_items [ImageId 31; Extra [97] (Some [84]); Extra [113] None; ImageNumber 4294967295] /\
+  wf_msg (Some [97; 59; 98; 61; 99; 44; 195; 169]) /\
+  wf_msg None /\ incomplete [27; 95; 71; 105; 61] /\ first_at_end CSI [27] /\ num_ok 24.
+Proof.
+  assert (U1 : forall b, b < 128 -> utf8 [b]) by (intros; apply u_1; [assumption|constructor]).
+  split; [apply first_at_end_b_sound; reflexivity|].
+  split.
+  { split; [discriminate|]. split.
+    - cbn [map key_name]. repeat constructor; cbn [In]; intuition discriminate.
+    - repeat constructor; try (apply num_ok_32; reflexivity); try (apply U1; reflexivity);
+        unfold plain; try discriminate; try (repeat split; discriminate). }
+  split.
+  { split; [apply first_at_end_b_sound; reflexivity|].
+    apply (u_1 97); [reflexivity|]. apply (u_1 59); [reflexivity|]. apply (u_1 98); [reflexivity|].
+    apply (u_1 61); [reflexivity|]. apply (u_1 99); [reflexivity|]. apply (u_1 44); [reflexivity|].
+    apply (u_2 195 169); [split; discriminate|split; discriminate|constructor]. }
+  split; [exact I|].
+  split.
+  { right. exists [], [105; 61]. split; [reflexivity|]. split; [apply first_at_end_nil|].
+    apply absent_b_sound. reflexivity. }
+  split; [apply first_at_end_b_sound; reflexivity|].
+  apply num_ok_32. reflexivity.
+Qed.
